@@ -225,6 +225,10 @@ def _str(I, args, kw):
     v = args[0]
     if isinstance(v, SInt): return _interp().NumStr(v)
     if isinstance(v, (str, int, float)) and not V.is_sym(v): return str(v)
+    if isinstance(v, Obj):
+        found, f = v.cls.lookup('__str__')
+        if found and type(f).__name__ == 'FuncInfo':
+            return I.invoke(f, [v], {})
     return Opaque('str')
 
 
